@@ -52,14 +52,6 @@ Fixpoint drop_nulls (entries : list (bytes * node)) (tms : list (bytes * ojson))
   | _ :: r => drop_nulls r tms
   end.
 
-Lemma aset_same {A} k (v : A) m : aget k m = Some v -> aset k v m = m.
-Proof.
-  induction m as [|[k' v'] m IH]; simpl; try discriminate.
-  destruct (bseq k k') eqn:E.
-  - intro H. inversion H; subst. apply bseq_eq in E. subst. reflexivity.
-  - intro H. f_equal. auto.
-Qed.
-
 Lemma prune_entries_abs entries : forall keys obj,
   keys_agree keys obj -> NoDup (map fst entries) ->
   (forall k v, In (k, v) entries -> aget k obj = Some v) ->
@@ -111,25 +103,6 @@ Proof.
 Qed.
 
 (* ---- pruneNulls ---- *)
-Fixpoint build_with (f : tjson -> node) (ms : list (bytes * tjson)) (acc : list (bytes * node)) : list (bytes * node) :=
-  match ms with
-  | [] => acc
-  | (k, v) :: r => build_with f r (aset (unquote k) (f v) acc)
-  end.
-
-Lemma build_with_nodup f ms : forall acc,
-  NoDup (map fst acc ++ map (fun kv => unquote (fst kv)) ms) ->
-  build_with f ms acc = acc ++ map (fun kv => (unquote (fst kv), f (snd kv))) ms.
-Proof.
-  induction ms as [|[k v] ms IH]; intros acc N; simpl.
-  - now rewrite app_nil_r.
-  - simpl in N. rewrite aset_notin.
-    + rewrite IH.
-      * rewrite <- app_assoc. reflexivity.
-      * rewrite map_app. simpl. rewrite <- app_assoc. exact N.
-    + intro Hin. apply NoDup_remove_2 in N. apply N. apply in_or_app. now left.
-Qed.
-
 Definition pchild (v : tjson) : node := match v with TNull => NNil | _ => prune_t v end.
 
 Lemma prune_t_obj ms :
